@@ -163,7 +163,7 @@ func (c *Ctx) ruleList(v ssa.Value, depth int) ([]PullRule, bool) {
 				switch y := r2.(type) {
 				case *ssa.FieldAddr:
 					st, _ := derefType(y.X.Type()).Underlying().(*types.Struct)
-					fname := st.Field(y.Field).Name()
+					fname := fieldName(st.Field(y.Field))
 					for _, r3 := range *y.Referrers() {
 						s, ok := r3.(*ssa.Store)
 						if !ok {
@@ -232,7 +232,7 @@ func parseRuleComplit(r *PullRule, v ssa.Value) bool {
 		switch y := ref.(type) {
 		case *ssa.FieldAddr:
 			st, _ := derefType(y.X.Type()).Underlying().(*types.Struct)
-			fname := st.Field(y.Field).Name()
+			fname := fieldName(st.Field(y.Field))
 			for _, r3 := range *y.Referrers() {
 				if s, ok := r3.(*ssa.Store); ok {
 					setRuleField(r, fname, s.Val)
